@@ -1,6 +1,8 @@
 package harness
 
-// Model "txfee" (C08): fee accounting of ONE transaction.  Every op line is one really signed
+// Model "txfee" (C08): fee accounting of a transaction (this file: ops `tx`, ONE transaction and its
+// mempool history; txfee_seq_test.go: ops `seq` / `mempool`, sequences of transactions in one block,
+// consecutive blocks, or arriving at the mempool).  Every `tx` op line is one really signed
 // transaction run through the REAL app: state is prepared in the block being built (the set-up
 // fee configuration written straight into the store, then — `gov=` — governance proposals executed
 // through the real x/msgfees message handlers, see txfee_gov_test.go), the block is committed, the tx goes through `CheckTx` (mempool admission, on the committed state) and
@@ -327,6 +329,16 @@ type txfeeKeys struct {
 	priv map[string]*secp256k1.PrivKey
 	addr map[string]sdk.AccAddress
 	accN map[string]uint64
+	// signer: the role signing the transaction whose body is being built ("" = P): the grantee of
+	// its MsgExecs, the sender of its custom-fee messages, the source of its payments.
+	signer string
+}
+
+func (k *txfeeKeys) me() sdk.AccAddress {
+	if k.signer == "" {
+		return k.addr["P"]
+	}
+	return k.addr[k.signer]
 }
 
 func (e *txfeeEnv) freshKeys() *txfeeKeys {
@@ -458,7 +470,7 @@ func (e *txfeeEnv) buildMsgs(toks []string, pos *int, k *txfeeKeys, depth int) (
 			if err != nil {
 				return nil, err
 			}
-			m := authz.NewMsgExec(k.addr["P"], inner)
+			m := authz.NewMsgExec(k.me(), inner)
 			out = append(out, &m)
 		case strings.HasPrefix(tk, "send:"):
 			f := strings.Split(tk, ":")
@@ -486,10 +498,10 @@ func (e *txfeeEnv) buildMsgs(toks []string, pos *int, k *txfeeKeys, depth int) (
 			if f[3] != "-" {
 				bips = f[3]
 			}
-			out = append(out, &msgfeestypes.MsgAssessCustomMsgFeeRequest{Name: "verif", Amount: c, Recipient: rcp, From: k.addr["P"].String(), RecipientBasisPoints: bips})
+			out = append(out, &msgfeestypes.MsgAssessCustomMsgFeeRequest{Name: "verif", Amount: c, Recipient: rcp, From: k.me().String(), RecipientBasisPoints: bips})
 		case strings.HasPrefix(tk, "pay:"):
 			out = append(out, &exchange.MsgCreatePaymentRequest{Payment: exchange.Payment{
-				Source: k.addr["P"].String(), SourceAmount: sdk.NewCoins(sdk.NewInt64Coin(txfeePayDenom, 1)), ExternalId: "verif-" + tk[4:]}})
+				Source: k.me().String(), SourceAmount: sdk.NewCoins(sdk.NewInt64Coin(txfeePayDenom, 1)), ExternalId: "verif-" + tk[4:]}})
 		default:
 			return nil, fmt.Errorf("bad body token %q", tk)
 		}
@@ -777,6 +789,15 @@ func replayTxfee(t *testing.T, ops []string, out *Out) {
 			out.Comment(strings.TrimPrefix(l, "# "))
 			continue
 		}
+		if strings.HasPrefix(l, "seq ") || strings.HasPrefix(l, "mempool ") {
+			sop, err := txfeeSeqParse(l)
+			if err != nil {
+				out.Emit(l, "err:badop")
+				continue
+			}
+			e.emitSeq(out, sop)
+			continue
+		}
 		op, err := txfeeParse(l)
 		if err != nil {
 			out.Emit(l, "err:badop")
@@ -789,6 +810,13 @@ func replayTxfee(t *testing.T, ops []string, out *Out) {
 func driveTxfee(t *testing.T, rng *RNG, n int, out *Out) {
 	txfeeSetup(t).seed = rng.U64()
 	for i := 0; i < n; i++ {
+		// one op in six is a SEQUENCE of transactions (txfee_seq_test.go): two thirds of them
+		// delivered in one block / consecutive blocks, one third arriving at the mempool
+		if rng.Chance(17) {
+			sop := txfeeSeqGen(rng, out)
+			txfeeSetup(t).emitSeq(out, sop)
+			continue
+		}
 		op := txfeeGen(rng, out)
 		txfeeSetup(t).emit(out, op)
 	}
